@@ -47,103 +47,86 @@ open TfelVerif TfelVerif.Mandel TfelVerif.C05
 set_option linter.unusedVariables false
 set_option linter.unusedSectionVars false
 set_option linter.unusedSimpArgs false
-set_option maxHeartbeats 1600000
+set_option maxHeartbeats 1000000
 
-variable {K : Type} [Field K] (c c3 : K) (fn : Fns K)
+variable {K : Type} [Field K] [CharZero K] (c c3 : K) (fn : Fns K)
 
-/-- close the six (four, three) component goals of an action theorem -/
-macro "c05_action" hc:term : tactic =>
+/-- close the component goals of a table theorem (`Gen…_all = DK3 …`): unfold, split, `ring` modulo `c² = 2` -/
+macro "c05_table" hc:term : tactic =>
   `(tactic| (
       c05_unfold
+      (try simp only [div_eq_mul_inv, c_inv $hc two_ne_zero])
       (repeat' apply And.intro)
-      all_goals (mandel_ring $hc)))
+      all_goals (first | ring1 | (ring_nf; (try c_powers $hc); (try ring1)))))
 
-/-! ## 3D -/
+/-! ## 3D: the traced 6×6 table is the Daleckii–Krein table `DK3 c M Θ`; hence its action (`DK3_apply`) -/
 
-/-- all eigenvalues distinct: the exact Daleckii–Krein formula -/
-theorem N3_dval_dist (hc : c * c = 2) (h2 : (2:K) ≠ 0)
-    (m00 m01 m02 m10 m11 m12 m20 m21 m22 l0 l1 l2 f0 f1 f2 g0 g1 g2 eps h00 h11 h22 h01 h02 h12 : K) :
-    apply6 (Gen.N3_dval_dist_all c c3 fn m00 m01 m02 m10 m11 m12 m20 m21 m22 l0 l1 l2 f0 f1 f2 g0 g1 g2 eps)
-        (M3.mandel3 c (M3.sym h00 h11 h22 h01 h02 h12))
-      = M3.mandel3 c (dkAct ⟨m00, m01, m02, m10, m11, m12, m20, m21, m22⟩
-          (M3.sym g0 g1 g2 ((f0 - f1) / (l0 - l1)) ((f0 - f2) / (l0 - l2)) ((f1 - f2) / (l1 - l2)))
-          (M3.sym h00 h11 h22 h01 h02 h12)) := by
-  have hc0 : c ≠ 0 := c_ne_zero hc h2
+/-- all eigenvalues distinct: the exact Daleckii–Krein formula `Θ_ij = (f_i − f_j)/(λ_i − λ_j)` -/
+theorem N3_dval_dist_table (hc : c * c = 2) (m00 m01 m02 m10 m11 m12 m20 m21 m22 l0 l1 l2 f0 f1 f2 g0 g1 g2 eps : K) :
+    Gen.N3_dval_dist_all c c3 fn m00 m01 m02 m10 m11 m12 m20 m21 m22 l0 l1 l2 f0 f1 f2 g0 g1 g2 eps
+      = DK3 c ⟨m00, m01, m02, m10, m11, m12, m20, m21, m22⟩ (M3.sym g0 g1 g2 ((f0 - f1) / (l0 - l1)) ((f0 - f2) / (l0 - l2)) ((f1 - f2) / (l1 - l2))) := by
   have e1 : l1 - l0 = -(l0 - l1) := by ring
   have e2 : l2 - l0 = -(l0 - l2) := by ring
   have e3 : l2 - l1 = -(l1 - l2) := by ring
-  c05_unfold
-  simp only [e1, e2, e3, one_div, inv_neg, div_eq_mul_inv]
+  simp only [gen_simp, e1, e2, e3, one_div, inv_neg, div_eq_mul_inv (f0 - f1), div_eq_mul_inv (f0 - f2),
+    div_eq_mul_inv (f1 - f2)]
   generalize (l0 - l1)⁻¹ = x01
   generalize (l0 - l2)⁻¹ = x02
   generalize (l1 - l2)⁻¹ = x12
-  (repeat' apply And.intro)
-  all_goals (mandel_ring hc)
+  c05_table hc
+theorem N3_dval_dist (hc : c * c = 2) (m00 m01 m02 m10 m11 m12 m20 m21 m22 l0 l1 l2 f0 f1 f2 g0 g1 g2 eps h00 h11 h22 h01 h02 h12 : K) :
+    apply6 (Gen.N3_dval_dist_all c c3 fn m00 m01 m02 m10 m11 m12 m20 m21 m22 l0 l1 l2 f0 f1 f2 g0 g1 g2 eps) (M3.mandel3 c (M3.sym h00 h11 h22 h01 h02 h12))
+      = M3.mandel3 c (dkAct ⟨m00, m01, m02, m10, m11, m12, m20, m21, m22⟩ (M3.sym g0 g1 g2 ((f0 - f1) / (l0 - l1)) ((f0 - f2) / (l0 - l2)) ((f1 - f2) / (l1 - l2))) (M3.sym h00 h11 h22 h01 h02 h12)) := by
+  rw [N3_dval_dist_table c c3 fn hc, DK3_apply hc]
 
 /-- `|λ_0 − λ_1| < eps`, `λ_2` apart -/
-theorem N3_dval_p01 (hc : c * c = 2) (h2 : (2:K) ≠ 0)
-    (m00 m01 m02 m10 m11 m12 m20 m21 m22 l0 l1 l2 f0 f1 f2 g0 g1 g2 eps h00 h11 h22 h01 h02 h12 : K) :
-    apply6 (Gen.N3_dval_p01_all c c3 fn m00 m01 m02 m10 m11 m12 m20 m21 m22 l0 l1 l2 f0 f1 f2 g0 g1 g2 eps)
-        (M3.mandel3 c (M3.sym h00 h11 h22 h01 h02 h12))
-      = M3.mandel3 c (dkAct ⟨m00, m01, m02, m10, m11, m12, m20, m21, m22⟩
-          (M3.sym ((g0 + g1) / 2) ((g0 + g1) / 2) g2 ((g0 + g1) / 2)
-            ((f0 - f2) / ((l0 + l1) / 2 - l2)) ((f0 - f2) / ((l0 + l1) / 2 - l2)))
-          (M3.sym h00 h11 h22 h01 h02 h12)) := by
-  have hc0 : c ≠ 0 := c_ne_zero hc h2
-  c05_unfold
-  simp only [div_eq_mul_inv (f0 - f2)]
+theorem N3_dval_p01_table (hc : c * c = 2) (m00 m01 m02 m10 m11 m12 m20 m21 m22 l0 l1 l2 f0 f1 f2 g0 g1 g2 eps : K) :
+    Gen.N3_dval_p01_all c c3 fn m00 m01 m02 m10 m11 m12 m20 m21 m22 l0 l1 l2 f0 f1 f2 g0 g1 g2 eps
+      = DK3 c ⟨m00, m01, m02, m10, m11, m12, m20, m21, m22⟩ (M3.sym ((g0 + g1) / 2) ((g0 + g1) / 2) g2 ((g0 + g1) / 2) ((f0 - f2) / ((l0 + l1) / 2 - l2)) ((f0 - f2) / ((l0 + l1) / 2 - l2))) := by
+  simp only [gen_simp, div_eq_mul_inv (f0 - f2)]
   generalize ((l0 + l1) / 2 - l2)⁻¹ = x
-  (repeat' apply And.intro)
-  all_goals (mandel_ring hc)
+  c05_table hc
+theorem N3_dval_p01 (hc : c * c = 2) (m00 m01 m02 m10 m11 m12 m20 m21 m22 l0 l1 l2 f0 f1 f2 g0 g1 g2 eps h00 h11 h22 h01 h02 h12 : K) :
+    apply6 (Gen.N3_dval_p01_all c c3 fn m00 m01 m02 m10 m11 m12 m20 m21 m22 l0 l1 l2 f0 f1 f2 g0 g1 g2 eps) (M3.mandel3 c (M3.sym h00 h11 h22 h01 h02 h12))
+      = M3.mandel3 c (dkAct ⟨m00, m01, m02, m10, m11, m12, m20, m21, m22⟩ (M3.sym ((g0 + g1) / 2) ((g0 + g1) / 2) g2 ((g0 + g1) / 2) ((f0 - f2) / ((l0 + l1) / 2 - l2)) ((f0 - f2) / ((l0 + l1) / 2 - l2))) (M3.sym h00 h11 h22 h01 h02 h12)) := by
+  rw [N3_dval_p01_table c c3 fn hc, DK3_apply hc]
 
 /-- `|λ_0 − λ_2| < eps`, `λ_1` apart -/
-theorem N3_dval_p02 (hc : c * c = 2) (h2 : (2:K) ≠ 0)
-    (m00 m01 m02 m10 m11 m12 m20 m21 m22 l0 l1 l2 f0 f1 f2 g0 g1 g2 eps h00 h11 h22 h01 h02 h12 : K) :
-    apply6 (Gen.N3_dval_p02_all c c3 fn m00 m01 m02 m10 m11 m12 m20 m21 m22 l0 l1 l2 f0 f1 f2 g0 g1 g2 eps)
-        (M3.mandel3 c (M3.sym h00 h11 h22 h01 h02 h12))
-      = M3.mandel3 c (dkAct ⟨m00, m01, m02, m10, m11, m12, m20, m21, m22⟩
-          (M3.sym ((g0 + g2) / 2) g1 ((g0 + g2) / 2) ((f0 - f1) / ((l0 + l2) / 2 - l1))
-            ((g0 + g2) / 2) ((f0 - f1) / ((l0 + l2) / 2 - l1)))
-          (M3.sym h00 h11 h22 h01 h02 h12)) := by
-  have hc0 : c ≠ 0 := c_ne_zero hc h2
-  c05_unfold
-  simp only [div_eq_mul_inv (f0 - f1)]
+theorem N3_dval_p02_table (hc : c * c = 2) (m00 m01 m02 m10 m11 m12 m20 m21 m22 l0 l1 l2 f0 f1 f2 g0 g1 g2 eps : K) :
+    Gen.N3_dval_p02_all c c3 fn m00 m01 m02 m10 m11 m12 m20 m21 m22 l0 l1 l2 f0 f1 f2 g0 g1 g2 eps
+      = DK3 c ⟨m00, m01, m02, m10, m11, m12, m20, m21, m22⟩ (M3.sym ((g0 + g2) / 2) g1 ((g0 + g2) / 2) ((f0 - f1) / ((l0 + l2) / 2 - l1)) ((g0 + g2) / 2) ((f0 - f1) / ((l0 + l2) / 2 - l1))) := by
+  simp only [gen_simp, div_eq_mul_inv (f0 - f1)]
   generalize ((l0 + l2) / 2 - l1)⁻¹ = x
-  (repeat' apply And.intro)
-  all_goals (mandel_ring hc)
+  c05_table hc
+theorem N3_dval_p02 (hc : c * c = 2) (m00 m01 m02 m10 m11 m12 m20 m21 m22 l0 l1 l2 f0 f1 f2 g0 g1 g2 eps h00 h11 h22 h01 h02 h12 : K) :
+    apply6 (Gen.N3_dval_p02_all c c3 fn m00 m01 m02 m10 m11 m12 m20 m21 m22 l0 l1 l2 f0 f1 f2 g0 g1 g2 eps) (M3.mandel3 c (M3.sym h00 h11 h22 h01 h02 h12))
+      = M3.mandel3 c (dkAct ⟨m00, m01, m02, m10, m11, m12, m20, m21, m22⟩ (M3.sym ((g0 + g2) / 2) g1 ((g0 + g2) / 2) ((f0 - f1) / ((l0 + l2) / 2 - l1)) ((g0 + g2) / 2) ((f0 - f1) / ((l0 + l2) / 2 - l1))) (M3.sym h00 h11 h22 h01 h02 h12)) := by
+  rw [N3_dval_p02_table c c3 fn hc, DK3_apply hc]
 
 /-- `|λ_1 − λ_2| < eps`, `λ_0` apart -/
-theorem N3_dval_p12 (hc : c * c = 2) (h2 : (2:K) ≠ 0)
-    (m00 m01 m02 m10 m11 m12 m20 m21 m22 l0 l1 l2 f0 f1 f2 g0 g1 g2 eps h00 h11 h22 h01 h02 h12 : K) :
-    apply6 (Gen.N3_dval_p12_all c c3 fn m00 m01 m02 m10 m11 m12 m20 m21 m22 l0 l1 l2 f0 f1 f2 g0 g1 g2 eps)
-        (M3.mandel3 c (M3.sym h00 h11 h22 h01 h02 h12))
-      = M3.mandel3 c (dkAct ⟨m00, m01, m02, m10, m11, m12, m20, m21, m22⟩
-          (M3.sym g0 ((g1 + g2) / 2) ((g1 + g2) / 2) ((f0 - f1) / (l0 - (l1 + l2) / 2))
-            ((f0 - f1) / (l0 - (l1 + l2) / 2)) ((g1 + g2) / 2))
-          (M3.sym h00 h11 h22 h01 h02 h12)) := by
-  have hc0 : c ≠ 0 := c_ne_zero hc h2
-  c05_unfold
-  simp only [div_eq_mul_inv (f0 - f1)]
+theorem N3_dval_p12_table (hc : c * c = 2) (m00 m01 m02 m10 m11 m12 m20 m21 m22 l0 l1 l2 f0 f1 f2 g0 g1 g2 eps : K) :
+    Gen.N3_dval_p12_all c c3 fn m00 m01 m02 m10 m11 m12 m20 m21 m22 l0 l1 l2 f0 f1 f2 g0 g1 g2 eps
+      = DK3 c ⟨m00, m01, m02, m10, m11, m12, m20, m21, m22⟩ (M3.sym g0 ((g1 + g2) / 2) ((g1 + g2) / 2) ((f0 - f1) / (l0 - (l1 + l2) / 2)) ((f0 - f1) / (l0 - (l1 + l2) / 2)) ((g1 + g2) / 2)) := by
+  simp only [gen_simp, div_eq_mul_inv (f0 - f1)]
   generalize (l0 - (l1 + l2) / 2)⁻¹ = x
-  (repeat' apply And.intro)
-  all_goals (mandel_ring hc)
+  c05_table hc
+theorem N3_dval_p12 (hc : c * c = 2) (m00 m01 m02 m10 m11 m12 m20 m21 m22 l0 l1 l2 f0 f1 f2 g0 g1 g2 eps h00 h11 h22 h01 h02 h12 : K) :
+    apply6 (Gen.N3_dval_p12_all c c3 fn m00 m01 m02 m10 m11 m12 m20 m21 m22 l0 l1 l2 f0 f1 f2 g0 g1 g2 eps) (M3.mandel3 c (M3.sym h00 h11 h22 h01 h02 h12))
+      = M3.mandel3 c (dkAct ⟨m00, m01, m02, m10, m11, m12, m20, m21, m22⟩ (M3.sym g0 ((g1 + g2) / 2) ((g1 + g2) / 2) ((f0 - f1) / (l0 - (l1 + l2) / 2)) ((f0 - f1) / (l0 - (l1 + l2) / 2)) ((g1 + g2) / 2)) (M3.sym h00 h11 h22 h01 h02 h12)) := by
+  rw [N3_dval_p12_table c c3 fn hc, DK3_apply hc]
 
 /-- all three eigenvalues within `eps`: `d = ((g_0+g_1+g_2)/3) Id` -/
-theorem N3_dval_full (hc : c * c = 2)
-    (m00 m01 m02 m10 m11 m12 m20 m21 m22 l0 l1 l2 f0 f1 f2 g0 g1 g2 eps h00 h11 h22 h01 h02 h12 : K) :
-    apply6 (Gen.N3_dval_full_all c c3 fn m00 m01 m02 m10 m11 m12 m20 m21 m22 l0 l1 l2 f0 f1 f2 g0 g1 g2 eps)
-        (M3.mandel3 c (M3.sym h00 h11 h22 h01 h02 h12))
+theorem N3_dval_full (hc : c * c = 2) (m00 m01 m02 m10 m11 m12 m20 m21 m22 l0 l1 l2 f0 f1 f2 g0 g1 g2 eps h00 h11 h22 h01 h02 h12 : K) :
+    apply6 (Gen.N3_dval_full_all c c3 fn m00 m01 m02 m10 m11 m12 m20 m21 m22 l0 l1 l2 f0 f1 f2 g0 g1 g2 eps) (M3.mandel3 c (M3.sym h00 h11 h22 h01 h02 h12))
       = M3.mandel3 c (((g0 + g1 + g2) / 3) • M3.sym h00 h11 h22 h01 h02 h12) := by
   c05_unfold
   (repeat' apply And.intro)
   all_goals ring1
 
 /-- … which is the Daleckii–Krein form with all weights equal when `M` is orthogonal -/
-theorem N3_dval_full_dk (hc : c * c = 2)
-    (m00 m01 m02 m10 m11 m12 m20 m21 m22 l0 l1 l2 f0 f1 f2 g0 g1 g2 eps h00 h11 h22 h01 h02 h12 : K)
+theorem N3_dval_full_dk (hc : c * c = 2) (m00 m01 m02 m10 m11 m12 m20 m21 m22 l0 l1 l2 f0 f1 f2 g0 g1 g2 eps h00 h11 h22 h01 h02 h12 : K)
     (hM : Orth (⟨m00, m01, m02, m10, m11, m12, m20, m21, m22⟩ : M3 K)) :
-    apply6 (Gen.N3_dval_full_all c c3 fn m00 m01 m02 m10 m11 m12 m20 m21 m22 l0 l1 l2 f0 f1 f2 g0 g1 g2 eps)
-        (M3.mandel3 c (M3.sym h00 h11 h22 h01 h02 h12))
+    apply6 (Gen.N3_dval_full_all c c3 fn m00 m01 m02 m10 m11 m12 m20 m21 m22 l0 l1 l2 f0 f1 f2 g0 g1 g2 eps) (M3.mandel3 c (M3.sym h00 h11 h22 h01 h02 h12))
       = M3.mandel3 c (dkAct ⟨m00, m01, m02, m10, m11, m12, m20, m21, m22⟩
           (M3.sym ((g0 + g1 + g2) / 3) ((g0 + g1 + g2) / 3) ((g0 + g1 + g2) / 3) ((g0 + g1 + g2) / 3)
             ((g0 + g1 + g2) / 3) ((g0 + g1 + g2) / 3))
@@ -153,31 +136,32 @@ theorem N3_dval_full_dk (hc : c * c = 2)
   exact (dkAct_const hM _ _).symm
 
 /-! ## 2D (`M` = in-plane block, third eigenvector out of plane) and 1D -/
-theorem N2_dval_dist (hc : c * c = 2) (h2 : (2:K) ≠ 0)
-    (m00 m01 m10 m11 l0 l1 l2 f0 f1 f2 g0 g1 g2 eps h00 h11 h22 h01 : K) :
+theorem N2_dval_dist_table (hc : c * c = 2) (m00 m01 m10 m11 l0 l1 l2 f0 f1 f2 g0 g1 g2 eps : K) :
+    Gen.N2_dval_dist_all c c3 fn m00 m01 0 m10 m11 0 0 0 1 l0 l1 l2 f0 f1 f2 g0 g1 g2 eps
+      = DK2 c m00 m01 m10 m11 g0 g1 g2 ((f0 - f1) / (l0 - l1)) := by
+  simp only [gen_simp, div_eq_mul_inv (f0 - f1)]
+  generalize (l0 - l1)⁻¹ = x
+  c05_table hc
+theorem N2_dval_dist (hc : c * c = 2) (m00 m01 m10 m11 l0 l1 l2 f0 f1 f2 g0 g1 g2 eps h00 h11 h22 h01 : K) :
     apply4 (Gen.N2_dval_dist_all c c3 fn m00 m01 0 m10 m11 0 0 0 1 l0 l1 l2 f0 f1 f2 g0 g1 g2 eps)
         (M3.mandel2 c (M3.sym h00 h11 h22 h01 0 0))
       = M3.mandel2 c (dkAct (M2 m00 m01 m10 m11) (M3.sym g0 g1 g2 ((f0 - f1) / (l0 - l1)) 0 0)
           (M3.sym h00 h11 h22 h01 0 0)) := by
-  have hc0 : c ≠ 0 := c_ne_zero hc h2
-  c05_unfold
-  simp only [div_eq_mul_inv (f0 - f1)]
-  generalize (l0 - l1)⁻¹ = x
-  (repeat' apply And.intro)
-  all_goals (mandel_ring hc)
+  rw [N2_dval_dist_table c c3 fn hc, DK2_apply hc]
 
-theorem N2_dval_eq (hc : c * c = 2) (h2 : (2:K) ≠ 0)
-    (m00 m01 m10 m11 l0 l1 l2 f0 f1 f2 g0 g1 g2 eps h00 h11 h22 h01 : K) :
+theorem N2_dval_eq_table (hc : c * c = 2) (m00 m01 m10 m11 l0 l1 l2 f0 f1 f2 g0 g1 g2 eps : K) :
+    Gen.N2_dval_eq_all c c3 fn m00 m01 0 m10 m11 0 0 0 1 l0 l1 l2 f0 f1 f2 g0 g1 g2 eps
+      = DK2 c m00 m01 m10 m11 ((g0 + g1) / 2) ((g0 + g1) / 2) g2 ((g0 + g1) / 2) := by
+  c05_table hc
+theorem N2_dval_eq (hc : c * c = 2) (m00 m01 m10 m11 l0 l1 l2 f0 f1 f2 g0 g1 g2 eps h00 h11 h22 h01 : K) :
     apply4 (Gen.N2_dval_eq_all c c3 fn m00 m01 0 m10 m11 0 0 0 1 l0 l1 l2 f0 f1 f2 g0 g1 g2 eps)
         (M3.mandel2 c (M3.sym h00 h11 h22 h01 0 0))
       = M3.mandel2 c (dkAct (M2 m00 m01 m10 m11) (M3.sym ((g0 + g1) / 2) ((g0 + g1) / 2) g2 ((g0 + g1) / 2) 0 0)
           (M3.sym h00 h11 h22 h01 0 0)) := by
-  have hc0 : c ≠ 0 := c_ne_zero hc h2
-  c05_action hc
+  rw [N2_dval_eq_table c c3 fn hc, DK2_apply hc]
 
 theorem N1_dval (m00 m01 m02 m10 m11 m12 m20 m21 m22 l0 l1 l2 f0 f1 f2 g0 g1 g2 eps h00 h11 h22 : K) :
-    apply3 (Gen.N1_dval_any_all c c3 fn m00 m01 m02 m10 m11 m12 m20 m21 m22 l0 l1 l2 f0 f1 f2 g0 g1 g2 eps)
-        (M3.mandel1 (M3.sym h00 h11 h22 0 0 0))
+    apply3 (Gen.N1_dval_any_all c c3 fn m00 m01 m02 m10 m11 m12 m20 m21 m22 l0 l1 l2 f0 f1 f2 g0 g1 g2 eps) (M3.mandel1 (M3.sym h00 h11 h22 0 0 0))
       = M3.mandel1 (dkAct 1 (M3.sym g0 g1 g2 0 0 0) (M3.sym h00 h11 h22 0 0 0)) := by
   c05_unfold
   (repeat' apply And.intro)
@@ -279,7 +263,7 @@ theorem N3_square_dist (hd : d * d = 2) (habs : ∀ x, gn.abs x = |x|)
           + M3.sym h00 h11 h22 h01 h02 h12 * iso ⟨m00, m01, m02, m10, m11, m12, m20, m21, m22⟩ l0 l1 l2) := by
   obtain ⟨n01, n02, n12⟩ := N3_dist_path_distinct d d3 gn habs _ _ _ _ _ _ _ _ _ _ _ _ _ _ _ _ _ _ _ heps hp
   have h2 : (2 : F) ≠ 0 := two_ne_zero
-  rw [N3_dval_dist d d3 gn hd h2, ← dkAct_square hM]
+  rw [N3_dval_dist d d3 gn hd, ← dkAct_square hM]
   congr 2
   have s01 : l0 - l1 ≠ 0 := sub_ne_zero.mpr n01
   have s02 : l0 - l2 ≠ 0 := sub_ne_zero.mpr n02
@@ -304,7 +288,7 @@ theorem N3_cube_dist (hd : d * d = 2) (habs : ∀ x, gn.abs x = |x|)
               * iso ⟨m00, m01, m02, m10, m11, m12, m20, m21, m22⟩ l0 l1 l2) := by
   obtain ⟨n01, n02, n12⟩ := N3_dist_path_distinct d d3 gn habs _ _ _ _ _ _ _ _ _ _ _ _ _ _ _ _ _ _ _ heps hp
   have h2 : (2 : F) ≠ 0 := two_ne_zero
-  rw [N3_dval_dist d d3 gn hd h2, ← dkAct_cube hM]
+  rw [N3_dval_dist d d3 gn hd, ← dkAct_cube hM]
   congr 2
   have s01 : l0 - l1 ≠ 0 := sub_ne_zero.mpr n01
   have s02 : l0 - l2 ≠ 0 := sub_ne_zero.mpr n02
@@ -325,12 +309,11 @@ theorem N3_square_p01 (hd : d * d = 2) (habs : ∀ x, gn.abs x = |x|)
           + M3.sym h00 h11 h22 h01 h02 h12 * iso ⟨m00, m01, m02, m10, m11, m12, m20, m21, m22⟩ l0 l0 l2) := by
   obtain ⟨-, n02⟩ := N3_p01_path_distinct d d3 gn habs _ _ _ _ _ _ _ _ _ _ _ _ _ _ _ _ _ _ _ heps hp
   have h2 : (2 : F) ≠ 0 := two_ne_zero
-  rw [N3_dval_p01 d d3 gn hd h2, ← dkAct_square hM]
+  rw [N3_dval_p01 d d3 gn hd, ← dkAct_square hM]
+  have e : (l0 + l0) / 2 = l0 := by ring
+  rw [e]
   congr 2
   have s02 : l0 - l2 ≠ 0 := sub_ne_zero.mpr n02
-  have s02' : (l0 + l0) / 2 - l2 ≠ 0 := by
-    have : (l0 + l0) / 2 = l0 := by ring
-    rw [this]; exact s02
   simp only [M3.sym, M3.mk.injEq]
   refine ⟨?_, ?_, ?_, ?_, ?_, ?_, ?_, ?_, by ring⟩ <;> field_simp <;> ring
 
